@@ -147,91 +147,137 @@ def run(rep):
                               "the stored vector must be the validated (length, NaN, clip) result of __checkvalues__", line=n.lineno)
     if not okb:
         rep.violation("R12.b", file, "Vector.values.setter", "whole-vector store", "no store of the __checkvalues__ result found", line=setter.lineno)
-    # __checkvalues__ itself: length check, NaN check, clip, in this order and all present
+    # __checkvalues__ itself, evaluated symbolically: rejections, clipped result, hit flag
+    from .. import pq, cq
+    from ..formula import show as _show, num as _num
+    from .c03 import rank_orders
     cv = methods["__checkvalues__"]
-    ret = [n for n in cv.body if isinstance(n, ast.Return)]
-    clipped = False
-    valparam = cv.args.args[1].arg if len(cv.args.args) > 1 else None
-    if ret and isinstance(ret[0].value, ast.Tuple) and isinstance(ret[0].value.elts[0], ast.Name):
-        rname = ret[0].value.elts[0].id
-        last = None
-        for n in cv.body:
-            if isinstance(n, ast.Assign) and isinstance(n.targets[0], ast.Name) and n.targets[0].id == rname:
-                last = n
-        if last is not None and isinstance(last.value, ast.Call) and dotted(last.value.func) == "np.clip" and len(last.value.args) == 3:
-            a = last.value.args
-            clipped = isinstance(a[0], ast.Name) and field_of(a[1]) == "_mins" and field_of(a[2]) == "_maxs"
-    has_len = any(isinstance(n, ast.If) and raises(n.body) and any(
-        isinstance(x, ast.Compare) and isinstance(x.ops[0], ast.NotEq) and
-        {"shape" in ast.unparse(x.left) or "len(" in ast.unparse(x.left), "nval" in ast.unparse(x.comparators[0])} == {True}
-        or isinstance(x, ast.Compare) and isinstance(x.ops[0], ast.NotEq) and "nval" in ast.unparse(x.left)
-        for x in ast.walk(n.test)) for n in cv.body)
-    has_nan = any(isinstance(n, ast.If) and raises(n.body) and nan_guard(n.test) for n in cv.body)
+    valparam = cv.args.args[1].arg if len(cv.args.args) > 1 else "val"
+    cpaths = pq.PEval().run(cv)
+    rets = [p_ for p_ in cpaths if p_.how == "return"]
+    rais = [p_ for p_ in cpaths if p_.how == "raise"]
+    if not rets:
+        raise AnalysisError(f"{file}: Vector.__checkvalues__: no returning path")
+    # the validated vector: first element of the returned tuple is np.clip(V, mins, maxs); V = the converted argument
+    V = None
+    clipped = True
+    for p_ in rets:
+        v = p_.value
+        if not (isinstance(v, tuple) and v[0] == 'tuple' and len(v[1]) == 2 and pq.call_named(v[1][0], "clip") and len(v[1][0][2]) == 3):
+            clipped = False
+            continue
+        Vp = v[1][0][2][0]
+        clipped = clipped and pq.same(v[1][0][2][1], "self._mins") and pq.same(v[1][0][2][2], "self._maxs") and pq.mentions(Vp, lambda e: e == ('sym', valparam))
+        V = Vp if V is None else V
+        clipped = clipped and pq.same(Vp, V)
+    rep.check(clipped and V is not None, "R12.b", file, "Vector.__checkvalues__", "returned values are np.clip(val, mins, maxs)", "", line=cv.lineno)
+    venv = {"V": V} if V is not None else {}
+    def last_cond_is(p_, want, wantenv=None):
+        fc = pq.flat_conds(p_.conds[-1:])
+        return fc
+    has_len = any(pq.cond_truth(pq.flat_conds(p_.conds), pq.parse("len(V) != self.nval", venv)) is True or
+                  pq.cond_truth(pq.flat_conds(p_.conds), pq.parse("len(V) == self.nval", venv)) is False for p_ in rais) if V is not None else False
     rep.check(has_len, "R12.b", file, "Vector.__checkvalues__", "length check raises", "", line=cv.lineno)
-    rep.check(has_nan, "R12.b", file, "Vector.__checkvalues__", "NaN rejected unless accept_nan", "", line=cv.lineno)
-    rep.check(clipped, "R12.b", file, "Vector.__checkvalues__", "returned values are np.clip(val, mins, maxs)", "", line=cv.lineno)
-    # hit flag: any(val < mins - EPS | val > maxs + EPS) computed before clipping
-    hit_ok = False
-    rethit = ret[0].value.elts[1].id if ret and isinstance(ret[0].value, ast.Tuple) and len(ret[0].value.elts) > 1 and \
-        isinstance(ret[0].value.elts[1], ast.Name) else None
-    want_hit = frozenset([frozenset([("_mins", 1), ("name:EPS", -1), ("V", -1)]), frozenset([("V", 1), ("_maxs", -1), ("name:EPS", -1)])])
-    clip_line = None
-    for n in ast.walk(cv):
-        if isinstance(n, ast.Assign) and isinstance(n.targets[0], ast.Name) and n.targets[0].id == rethit and not isinstance(n.value, ast.Constant):
-            got = outside_set(n.value, {valparam: "V"})
-            hit_ok = got == want_hit
-    rep.check(hit_ok, "R12.b", file, "Vector.__checkvalues__", "hit flag = any(val < mins-EPS | val > maxs+EPS)", "", line=cv.lineno)
+    NANV = pq.parse("np.any(np.isnan(V))", venv) if V is not None else None
+    nan_raise = [p_ for p_ in rais if NANV is not None and pq.cond_truth(pq.flat_conds(p_.conds), NANV) is True and
+                 pq.cond_truth(pq.flat_conds(p_.conds), "self._accept_nan") is False]
+    # no returning path carries NaN without the permission
+    nan_leak = [p_ for p_ in rets if NANV is not None and pq.cond_truth(pq.flat_conds(p_.conds), NANV) is True and
+                pq.cond_truth(pq.flat_conds(p_.conds), "self._accept_nan") is False]
+    rep.check(bool(nan_raise) and not nan_leak, "R12.b", file, "Vector.__checkvalues__", "NaN rejected unless accept_nan", "", line=cv.lineno)
+    hit_ok = bool(rets) and V is not None
+    for p_ in rets:
+        h = p_.value[1][1] if p_.value[0] == 'tuple' and len(p_.value[1]) == 2 else None
+        on = pq.cond_truth(pq.flat_conds(p_.conds), "check_hitbounds")
+        if on is True:
+            hit_ok = hit_ok and h is not None and pq.same(h, pq.parse("np.any((V < self._mins - EPS) | (V > self._maxs + EPS))", venv))
+        elif on is False:
+            hit_ok = hit_ok and h is not None and pq.same(h, "False")
+        else:
+            hit_ok = False
+    rep.check(hit_ok, "R12.b", file, "Vector.__checkvalues__", "hit flag = any(val < mins-EPS | val > maxs+EPS) on the values before clipping", "", line=cv.lineno)
     # element store in __setattr__
     sa = methods["__setattr__"]
-    blk = None
-    for n in sa.body:
-        if isinstance(n, ast.If) and "self._names" in ast.unparse(n.test) and "name in" in ast.unparse(n.test):
-            blk = n.body
-    if blk is None:
-        raise AnalysisError(f"{file}: Vector.__setattr__: `if name in self._names:` block not found")
-    store_idx = raise_idx = None
     valname = sa.args.args[2].arg if len(sa.args.args) > 2 else "value"
-    for i, s_ in enumerate(blk):
-        if isinstance(s_, ast.If) and raises(s_.body) and any(isinstance(x, ast.Call) and dotted(x.func) in ("np.isnan", "math.isnan") for x in ast.walk(s_.test)):
-            raise_idx = i
-            rep.check(nan_guard(s_.test), "R12.b", file, "Vector.__setattr__",
-                      "NaN rejected unless accept_nan", f"test is `{ast.unparse(s_.test)}`", line=s_.lineno)
-        if isinstance(s_, ast.Assign) and isinstance(s_.targets[0], ast.Subscript) and field_of(s_.targets[0]) == "_values":
-            store_idx = i
-            idx = ast.unparse(s_.targets[0].slice)
-            rep.check(clip_form(s_.value, valname, idx), "R12.b", file, "Vector.__setattr__", "element store is clipped to [mins[idx], maxs[idx]]",
-                      f"stored expression `{ast.unparse(s_.value)}`", line=s_.lineno)
-    rep.check(store_idx is not None and raise_idx is not None and raise_idx < store_idx, "R12.b", file, "Vector.__setattr__",
-              "NaN rejection dominates the element store", "", line=sa.lineno)
-    # hit flag of the element path
-    hf = [x for x in ast.walk(ast.Module(body=blk, type_ignores=[])) if isinstance(x, ast.Assign) and
-          isinstance(x.targets[0], ast.Attribute) and x.targets[0].attr == "_hitbounds"]
-    okh = False
-    if len(hf) == 1:
-        got = outside_set(hf[0].value, {valname: "V"})
-        okh = got == frozenset([frozenset([("_mins", 1), ("V", -1)]), frozenset([("V", 1), ("_maxs", -1)])])
+    spaths = pq.PEval().run(sa)
+    elem = [p_ for p_ in spaths if pq.cond_truth(pq.flat_conds(p_.conds), "name in self._names") is True]
+    if not elem:
+        raise AnalysisError(f"{file}: Vector.__setattr__: element path (`name in self._names`) not found")
+    IDX = "self._names_index[name]"
+    done = [p_ for p_ in elem if p_.how in ("end", "return")]
+    rais = [p_ for p_ in elem if p_.how == "raise"]
+    stores = []
+    for p_ in done:
+        stores += [(p_, e) for e in p_.effects if e.kind == 'store' and e.target in ("self.values", "self._values")]
+    VAL = stores[0][1].val if stores else None
+    # the value being stored is built from `value` (converted), the bounds at idx: evaluate under every ordering of (value, lo, hi), lo <= hi
+    okclip, det = bool(stores) and len(done) == len(stores), ""
+    vsym = None
+    if okclip:
+        for p_, e in stores:
+            okclip = okclip and pq.same(e.key, IDX)
+        # identify the converted value: the operand that mentions the parameter
+        cands = pq.find(('tuple', tuple(e.val for _p, e in stores)), lambda x: x == ('sym', valname))
+        vsym = ('sym', valname)
+        LO = [pq.parse(f"self.mins[{IDX}]"), pq.parse(f"self._mins[{IDX}]")]
+        HI = [pq.parse(f"self.maxs[{IDX}]"), pq.parse(f"self._maxs[{IDX}]")]
+        syms = {_show(vsym): "v"}
+        for x in LO:
+            syms[_show(x)] = "lo"
+        for x in HI:
+            syms[_show(x)] = "hi"
+        for ranks in rank_orders(3):
+            rk = {"v": ranks[0], "lo": ranks[1], "hi": ranks[2]}
+            if rk["lo"] > rk["hi"]:
+                continue
+            want = "lo" if rk["v"] < rk["lo"] else "hi" if rk["v"] > rk["hi"] else "v"
+            got = set()
+            for p_, e in stores:
+                # the path is live under this ordering when every comparison it recorded evaluates accordingly
+                live = True
+                for c, t in pq.flat_conds(p_.conds):
+                    ov = pq.order_value(c, rk, syms)
+                    if isinstance(ov, bool) and ov != t:
+                        live = False
+                if live:
+                    got.add(pq.order_value(e.val, rk, syms))
+            eq_ = lambda a_, b_: a_ == b_ or (a_ in rk and b_ in rk and rk[a_] == rk[b_])
+            if not got or not all(g is not None and eq_(g, want) for g in got):
+                okclip = False
+                det = f"ordering value/lo/hi ranks {ranks}: stores {sorted(map(str, got))}, clip gives {want}"
+    rep.check(okclip, "R12.b", file, "Vector.__setattr__", "element store is clipped to [mins[idx], maxs[idx]] for every ordering of value and bounds", det, line=sa.lineno)
+    NANX = pq.parse("np.isnan(X)", {"X": ('sym', valname)})
+    nr = [p_ for p_ in rais if pq.cond_truth(pq.flat_conds(p_.conds), NANX) is True and pq.cond_truth(pq.flat_conds(p_.conds), "self._accept_nan") is False]
+    leak = [p_ for p_ in done if pq.cond_truth(pq.flat_conds(p_.conds), NANX) is True and pq.cond_truth(pq.flat_conds(p_.conds), "self._accept_nan") is False]
+    rep.check(bool(nr) and not leak, "R12.b", file, "Vector.__setattr__", "NaN rejected unless accept_nan; the rejection dominates the element store", "", line=sa.lineno)
+    okh = bool(done)
+    for p_ in done:
+        hf = [e for e in p_.effects if e.kind == 'attr' and e.target.endswith("._hitbounds")]
+        on = pq.cond_truth(pq.flat_conds(p_.conds), "self.check_hitbounds")
+        if on is None:
+            on = pq.cond_truth(pq.flat_conds(p_.conds), "self._check_hitbounds")
+        if on is True:
+            okh = okh and len(hf) == 1 and (pq.same(hf[0].val, pq.parse(f"(X < self._mins[{IDX}]) or (X > self._maxs[{IDX}])", {"X": ('sym', valname)})) or
+                                          pq.same(hf[0].val, pq.parse(f"(X < self.mins[{IDX}]) or (X > self.maxs[{IDX}])", {"X": ('sym', valname)})))
+        elif on is False:
+            okh = okh and not hf
+        else:
+            okh = False
     rep.check(okh, "R12.b", file, "Vector.__setattr__", "hit flag = value outside [mins[idx], maxs[idx]]",
               "the flag must tell whether the latest assignment was clipped", line=sa.lineno)
 
     # ---------------- R12.c atomic rejection -----------------------------------------------------------
-    last_raise = max([i for i, s in enumerate(blk) if any(isinstance(x, ast.Raise) for x in ast.walk(s))], default=-1)
     early = []
-    for i, s in enumerate(blk[:max(last_raise, 0)]):
-        for x in ast.walk(s):
-            if isinstance(x, (ast.Assign, ast.AugAssign)):
-                ts = x.targets if isinstance(x, ast.Assign) else [x.target]
-                for t in ts:
-                    if isinstance(t, ast.Attribute) or (isinstance(t, ast.Subscript) and (dotted(t.value) or "").startswith("self")):
-                        early.append(x)
+    for p_ in rais:
+        early += [e for e in p_.effects if e.kind in ('attr', 'store') and e.target.startswith("self")]
     rep.check(not early, "R12.c", file, "Vector.__setattr__", "no state change before the last rejection",
-              "; ".join(f"line {x.lineno}: {ast.unparse(x)[:60]}" for x in early), line=sa.lineno)
+              "; ".join(repr(e)[:80] for e in early), line=sa.lineno)
     # setter: single tuple store, nothing before it
     pre = [s for s in setter.body if isinstance(s, (ast.Assign, ast.AugAssign)) and any(
         isinstance(t, ast.Attribute) for t in (s.targets if isinstance(s, ast.Assign) else [s.target]))]
     rep.check(len(pre) == 0, "R12.c", file, "Vector.values.setter", "validation result stored in one statement",
               "an attribute store precedes the validated store", line=setter.lineno)
-    cvstores = [x for x in ast.walk(cv) if isinstance(x, (ast.Assign, ast.AugAssign)) and any(
-        isinstance(t, ast.Attribute) for t in (x.targets if isinstance(x, ast.Assign) else [x.target]))]
+    cvstores = [e for p_ in cpaths for e in p_.effects if e.kind in ('attr', 'store') and e.target.startswith("self")]
     rep.check(not cvstores, "R12.c", file, "Vector.__checkvalues__", "validation routine does not store to self", "", line=cv.lineno)
     # reset goes through the setter
     rs = methods["reset"]
